@@ -511,6 +511,35 @@ def read_axes(ax):
     return out
 
 
+_PROCESS_PRELUDE_DONE = False
+
+
+def process_prelude():
+    """once per process, before the first observed plot: every plot kind is called the plain way on a small field
+    with a checkerboard validity and sign-changing values.  State that a first call leaves behind for later calls
+    (defaults captured at class or module level) then comes from a field that hides cells, whatever case runs first."""
+    global _PROCESS_PRELUDE_DONE
+    if _PROCESS_PRELUDE_DONE:
+        return
+    _PROCESS_PRELUDE_DONE = True
+    try:
+        m = df.Mesh(p1=(-1.5, 0.25), p2=(1.5, 2.25), n=(3, 2))
+        chk = np.array([[True, False], [False, True], [True, False]])
+        for nv in (1, 2, 3):
+            val = np.arange(1, 6 * nv + 1, dtype=float).reshape(3, 2, nv) - 3.5
+            g = df.Field(m, nvdim=nv, value=val, valid=chk)
+            for call in (lambda: g.mpl(), lambda: g.mpl.scalar() if nv == 1 else g.mpl.vector(),
+                         lambda: g.mpl.lightness(), lambda: g.mpl.contour() if nv == 1 else None):
+                try:
+                    call()
+                except Exception:  # noqa: BLE001
+                    pass
+                finally:
+                    plt.close("all")
+    except Exception:  # noqa: BLE001
+        pass
+
+
 def prelude(f, case):
     """history before the observed call: the same kind of plot was made before, by the plain call with default
     arguments, for ANOTHER field on the same mesh (other values, complementary validity).  Plots are independent of
@@ -982,6 +1011,7 @@ def run_session(case):
 
 
 def run_impl(case):
+    process_prelude()
     if case["kind"] == "table":
         return run_table(case)
     if case["kind"] == "session":
